@@ -43,20 +43,19 @@ def bc64_bits(s, nbits):
 
 
 def ab64(s):
-    """passlib's 'adapted base64': standard alphabet with '.' for '+', no padding"""
-    s = s.replace("=", "")
-    if re.search(r"[^A-Za-z0-9./]", s) or len(s) % 4 == 1:
+    """passlib's 'adapted base64': standard alphabet with '.' for '+', no padding. Read for the BITS it carries: characters
+    outside the alphabet are skipped, as non-validating base64 decoders do (a respelling of the same bits, see DESIGN 10.2)"""
+    t = re.sub(r"[^A-Za-z0-9+/]", "", s.replace(".", "+"))
+    if len(t) % 4 == 1:
         raise ValueError
-    t = s.replace(".", "+")
-    raw = base64.b64decode(t + "=" * (-len(t) % 4))
-    return raw
+    return base64.b64decode(t + "=" * (-len(t) % 4))
 
 
 def b64std(s):
-    s = s.replace("=", "")
-    if re.search(r"[^A-Za-z0-9+/]", s) or len(s) % 4 == 1:
+    t = re.sub(r"[^A-Za-z0-9+/]", "", s)
+    if len(t) % 4 == 1:
         raise ValueError
-    return base64.b64decode(s + "=" * (-len(s) % 4))
+    return base64.b64decode(t + "=" * (-len(t) % 4))
 
 
 def _hex(s):
@@ -79,9 +78,9 @@ _RX = [
     ("pbkdf2_sha512", re.compile(r"^\$pbkdf2-sha512\$([ \t+_0-9]+)\$([^$]*)\$([^$]+)$")),
     ("phpass", re.compile(rf"^\$[PH]\$({_H})({_H}{{8}})({_H}{{22}})$")),
     ("scrypt", re.compile(r"^\$scrypt\$ln=([ \t+_0-9]+),r=([ \t+_0-9]+),p=([ \t+_0-9]+)\$([^$]*)\$([^$]+)$")),
-    ("ldap_salted_sha1", re.compile(r"^\{SSHA\}([A-Za-z0-9+/=]+)$", re.I)),
-    ("ldap_sha1", re.compile(r"^\{SHA\}([A-Za-z0-9+/=]+)$", re.I)),
-    ("django_pbkdf2_sha256", re.compile(r"^pbkdf2_sha256\$([ \t+_0-9]+)\$([^$]+)\$([A-Za-z0-9+/=]+)$")),
+    ("ldap_salted_sha1", re.compile(r"^\{SSHA\}(.+)$", re.I | re.S)),
+    ("ldap_sha1", re.compile(r"^\{SHA\}(.+)$", re.I | re.S)),
+    ("django_pbkdf2_sha256", re.compile(r"^pbkdf2_sha256\$([ \t+_0-9]+)\$([^$]+)\$([^$]+)$", re.S)),
     ("django_salted_sha1", re.compile(r"^sha1\$([^$]*)\$([0-9a-fA-F]{40})$")),
     ("mysql41", re.compile(r"^\*([0-9a-fA-F]{40})$")),
     ("bsdi_crypt", re.compile(rf"^_({_H}{{4}})({_H}{{4}})({_H}{{11}})$")),
